@@ -901,7 +901,9 @@ def rule_F3(prog):
                     if isinstance(x, dict) and x.get("k") == "index":
                         side = origin(x["base"])
                         rng = range_desc(x["idx"], binds, fn_lets)
-                    elif isinstance(x, dict) and x.get("k") == "mcall" and x["name"] == "slice":
+                    elif isinstance(x, dict) and x.get("k") == "mcall" and (
+                            x["name"] == "slice" or (len(x["args"]) == 1 and origin(x["recv"]) in ("self.old", "self.new") and
+                                                     range_desc(x["args"][0], binds, fn_lets) is not None)):
                         side = origin(x["recv"]).replace("self.", "")
                         rng = range_desc(x["args"][0], binds, fn_lets) if x["args"] else None
                     got.append((tg, side, rng[0] if rng else None, rng[1] if rng else None))
@@ -2188,9 +2190,17 @@ def rule_F14(prog):
                           "old/new, new/old): every arm of its PartialEq::eq compares the two payloads with ==, none returns a "
                           "constant")
     # the key wrapper is a local item of IdentifyDistinct::new, whatever it is called
+    def is_key_enum(head):
+        if not head:
+            return False
+        if head.endswith("::Key") or ("IdentifyDistinct" in head and "::new::" in head):
+            return True
+        a = prog.adts.get(head)
+        # hoisted to module level under another name: a two-variant enum of algorithms::utils wrapping one reference each
+        return bool(a) and head.startswith("algorithms::utils::") and a["kind"] == "enum" and len(a["variants"]) == 2 and \
+            all(len(v["fields"]) == 1 and v["fields"][0]["ty_str"].startswith("&") for v in a["variants"])
     fns = [f for f in prog.user_fns() if f.name == "eq" and f.impl and f.impl.get("trait") == "std::cmp::PartialEq" and
-           ((ty_head(f.impl["self_ty"]) or "").endswith("::Key") or
-            ("IdentifyDistinct" in (ty_head(f.impl["self_ty"]) or "") and "::new::" in (ty_head(f.impl["self_ty"]) or "")))]
+           is_key_enum(ty_head(f.impl["self_ty"]))]
     r.instances = len(fns)
     for fn in fns:
         combos = set()
